@@ -4,6 +4,7 @@
 (* kinds of the two invoices are drawn per behaviour; HTLC parameters are    *)
 (* drawn with RandomElement (a few draws per state keep the fan-out small):  *)
 (* mostly from the parameters that can be accepted, otherwise from the whole *)
+(* (bound through a singleton set so that one draw is used consistently);   *)
 (* product (wrong/absent/foreign address, low or mismatching totals, expiry  *)
 (* one block short, bad keysend preimage, bad or foreign AMP shares).        *)
 EXTENDS InvoiceRegistry, Json
@@ -23,9 +24,10 @@ Rec(e) == hist' = Append(hist, e)
 
 \* parameters that pass the static checks of the invoice they aim at
 Likely(c) == {p \in Params(c) :
-                /\ p.pl = "mpp" => (p.ad = p.h /\ p.tot >= V)
-                /\ p.pl = "amp" => (p.ad # 0 /\ Kind(p.ad) = "amp")
-                /\ p.pl = "legacy" => ~NeedAddr(p.h)
+                /\ p.pl = "mpp" => (p.ad = p.h /\ p.tot >= V /\ inv[p.h].st = "open" /\ Kind(p.h) \notin {"amp", "keysend"})
+                /\ p.pl = "amp" => (p.ad # 0 /\ Kind(p.ad) = "amp" /\ inv[p.ad].st = "open")
+                /\ p.pl = "legacy" => (~NeedAddr(p.h) /\ Kind(p.h) # "amp" /\ inv[p.h].ex /\ inv[p.h].st # "canceled")
+                /\ p.pl = "keysend" => p.good
                 /\ p.exp >= height + Need(IF p.pl = "amp" THEN (IF p.ad = 0 THEN 1 ELSE p.ad) ELSE p.h)}
 Draw(c) == IF Likely(c) # {} /\ RandomElement(1..10) <= 7 THEN RandomElement(Likely(c)) ELSE RandomElement(Params(c))
 
@@ -37,13 +39,15 @@ GInit == /\ kinds \in KindPool
          /\ height = 0 /\ now = 0
          /\ last = [a |-> "init", c |-> 0, k |-> 0, res |-> "none", why |-> "", alt |-> "", hodl |-> NoMsgs]
          /\ hist = <<>>
+\* weights: simulation picks uniformly among the successors that exist, a coin makes an event rarer
+Coin(n) == RandomElement(1..n) = 1
 GNext == /\ Len(hist) < MaxLen
-         /\ \/ \E c \in C : \E i \in 1..2 : LET p == Draw(c) IN Notify(p) /\ Rec(Ev("Notify", c, 0, p))
-            \/ \E c \in C : Replay(c) /\ Rec(Ev("Replay", c, 0, NoP))
-            \/ \E k \in Inv : Settle(k) /\ Rec(Ev("Settle", 0, k, NoP))
-            \/ \E k \in Inv : Cancel(k) /\ Rec(Ev("Cancel", 0, k, NoP))
-            \/ Tick /\ Rec(Ev("Tick", 0, 0, NoP))
-            \/ Block /\ Rec(Ev("Block", 0, 0, NoP))
+         /\ \/ \E c \in C : \E i \in 1..2 : \E p \in {Draw(c)} : Notify(p) /\ Rec(Ev("Notify", c, 0, p))
+            \/ \E c \in C : Coin(2) /\ Replay(c) /\ Rec(Ev("Replay", c, 0, NoP))
+            \/ \E k \in Inv : (inv[k].st = "accepted" \/ Coin(8)) /\ Settle(k) /\ Rec(Ev("Settle", 0, k, NoP))
+            \/ \E k \in Inv : Coin(6) /\ Cancel(k) /\ Rec(Ev("Cancel", 0, k, NoP))
+            \/ Coin(2) /\ Tick /\ Rec(Ev("Tick", 0, 0, NoP))
+            \/ Coin(3) /\ Block /\ Rec(Ev("Block", 0, 0, NoP))
 GSpec == GInit /\ [][GNext]_<<vars, hist>>
 
 Dump == (Len(hist) = MaxLen) =>
